@@ -260,9 +260,14 @@ pub fn run(ctx: &Ctx) -> Report {
             // long words, non-ASCII words
             2 => (prop::sample::select(vec![15usize, 31, 32, 33, 63, 64, 65, 100, 127, 128, 129, 255, 256, 257, 600]), prop::sample::select(vec!["", "é", "日", "😀"]), 0usize..4).prop_map(|(n, mb, sh)| format!("-z{}{}{}", "q".repeat(n.saturating_sub(2 + sh)), mb, "r".repeat(sh + 3))),
             1 => "-[b-np-z][a-zéü日]{1,8}",
+            // an operator word or an argument-less keyword followed by more characters is no keyword
+            2 => (prop::sample::select(vec!["-a", "-and", "-o", "-or", "-true", "-false", "-print", "-print0", "-ls", "-quit", "-prune", "-depth", "-empty", "-nouser", "-readable"]), "[a-z0-9-]{1,6}").prop_map(|(k, s)| format!("{k}{s}")),
         ]
         .prop_filter("keyword prefix", |w| {
-            !crate::checks::c05::KEYWORDS.iter().any(|k| w.starts_with(k)) && !w.starts_with("nope") && !w.contains(')')
+            // no keyword that takes an argument may be a prefix of the word (that is a primary with a
+            // glued argument, reported as such); the word itself is no keyword
+            const ARGLESS: [&str; 19] = ["-a", "-and", "-o", "-or", "-true", "-false", "-print", "-print0", "-print-file-fid", "-ls", "-quit", "-prune", "-depth", "-empty", "-nouser", "-nogroup", "-readable", "-writable", "-executable"];
+            !crate::checks::c05::KEYWORDS.iter().any(|k| *w == *k || (w.starts_with(k) && !ARGLESS.contains(k))) && !w.starts_with("nope") && !w.contains(')')
         });
         let strat = (word, 0usize..PREFIXES.len(), 0usize..SUFFIXES.len(), any::<bool>()).prop_map(|(w, pre, suf, paren)| {
             let prefix = PREFIXES[pre];
